@@ -419,6 +419,15 @@ func c11Scenarios() []*dscenario {
 				wh.device = strings.Replace(wh.device, "<hostname>router</hostname>", "<hostname>other</hostname>", 1)
 			}
 			l = append(l, wh)
+			if t == "PAN-OS" {
+				// uncommitted candidate changes of the login user / of somebody else
+				for _, who := range []string{"admin", "other-admin"} {
+					dc := baseScenario(t, f)
+					dc.name += "/dirty-candidate-of-" + who
+					dc.panDirtyBy = who
+					l = append(l, dc)
+				}
+			}
 			if t == "NSX" {
 				fx := baseScenario(t, f)
 				fx.name += "/foreign-objects"
